@@ -373,15 +373,52 @@ class PCase:
         try:
             self._run(res, seed, log, replay_dir)
         except (Unsupported, Undecided) as ex:
-            res["status"] = "inconclusive"
-            res["notes"].append(f"{type(ex).__name__}: {ex}")
-            log(f"  [{self.id}] INCONCLUSIVE {type(ex).__name__}: {ex}")
+            if "division by the constant zero" in str(ex) and self._definedness_violation(res, seed, log, replay_dir):
+                pass
+            else:
+                res["status"] = "inconclusive"
+                res["notes"].append(f"{type(ex).__name__}: {ex}")
+                log(f"  [{self.id}] INCONCLUSIVE {type(ex).__name__}: {ex}")
         except Exception as ex:  # harness error
             res["status"] = "error"
             res["notes"].append(traceback.format_exc())
             log(f"  [{self.id}] HARNESS ERROR {ex!r}\n{traceback.format_exc()}")
         res["wall_s"] = round(time.time() - t0, 2)
         return res
+
+    def _definedness_violation(self, res, seed, log, replay_dir):
+        """the symbolic run met a division by an EXACT zero (a structural zero, for every input).  Replay the real code at
+        the sampled inputs: non-finite outputs there are reported as a violation of definedness."""
+        try:
+            dom = PolyDomain()
+            dom.symbolic_sign_preds = True
+            fn, args = self.make(dom)
+            tr = Traced(fn, args, dce=self.dce)
+            env = pick_env(dom, set(tr.input_vars), seed, attempt=0)
+            import jax
+            real = tr.run_real(env)
+            leaves = [np.asarray(x, dtype=float) for x in jax.tree_util.tree_leaves(real) if np.asarray(x).dtype.kind in "fiub"]
+            bad = [x for x in leaves if not np.all(np.isfinite(x))]
+        except Exception:   # noqa: BLE001
+            return False
+        if not bad:
+            return False
+        label = "every operation is defined (the real code returns finite values)"
+        ob = {"id": f"{self.id}/{label}", "status": "violated", "n_goals": 1,
+              "counterexample": {"inputs": {k: str(v) for k, v in env.items()}, "label": label,
+                                 "found_by": "division by a structurally zero quantity in the symbolic run; real code replayed at the "
+                                             "sampled inputs returns non-finite values",
+                                 "non_finite_leaves": len(bad)}}
+        if replay_dir:
+            os.makedirs(replay_dir, exist_ok=True)
+            path = os.path.join(replay_dir, ob["id"].replace("/", "__") + ".json")
+            with open(path, "w") as f:
+                json.dump({"case": self.id, "obligation": ob["id"], "label": label, "seed": seed, "attempt": 0,
+                           "definedness": True, **ob["counterexample"]}, f, indent=1)
+            ob["replay"] = path
+        res["obligations"].append(ob)
+        log(f"  [{self.id}] {label}: violated")
+        return True
 
     def replay(self, path, log=print):
         """re-run a stored counterexample against the real code (no solver involved)"""
@@ -392,6 +429,17 @@ class PCase:
         fn, args = self.make(dom)
         tr = Traced(fn, args, dce=self.dce)
         env = {k: Fraction(v) for k, v in data["inputs"].items()}
+        if data.get("definedness"):
+            import jax
+            real = tr.run_real(env)
+            bad = [x for x in jax.tree_util.tree_leaves(real) if np.asarray(x).dtype.kind in "fiub"
+                   and not np.all(np.isfinite(np.asarray(x, dtype=float)))]
+            log(f"replay {data['obligation']}: {len(bad)} non-finite output arrays on the real code")
+            if bad:
+                log(f"VIOLATION property={self.id.split('/')[0]} replay={path}")
+                return 1
+            log("counterexample does not reproduce on the current tree")
+            return 0
         rep = self.replay_float(tr, args, env)
         label = data["label"]
         r = rep[label]
